@@ -51,12 +51,29 @@ def multi_text(rng, decls, depth=0):
     return out
 
 
+def decorate(rng, decls, depth=0, counter=None):
+    """things the macros never set but a declaration may carry: an annotation in the declaration itself; pointer options
+    with a (heap) default text, also inside sections"""
+    counter = counter if counter is not None else [0]
+    for d in list(decls):
+        if d.typ == 'sec':
+            if not (d.flags & F_KEYSTRVAL):
+                decorate(rng, d.sub, depth + 1, counter)
+        elif d.typ in ('int', 'float', 'bool', 'str') and rng.random() < 0.25:
+            d.comment = 'declared note %d' % counter[0]
+            counter[0] += 1
+    if rng.random() < 0.5:
+        counter[0] += 1
+        decls.append(D('pt%d_%d' % (depth, counter[0]), 'ptr', rng.choice([0, F_LIST]) if False else 0, None, cbs='pf', dparsed='ptrdefault%d' % counter[0]))
+
+
 def gen(tier, seed):
     rng = core.seeded_rng(seed, 'c16')
     n = 6000 if tier == 'quick' else 100000
     for i in range(n):
         so = G.SchemaOpts(keystrval=True, nodefault=True, funcs=True, depth=3)
         decls = G.gen_schema(rng, so)
+        decorate(rng, decls)
         comments = rng.random() < 0.4
         steps = []
         for _ in range(rng.randint(2, 5)):
@@ -122,6 +139,9 @@ def script(spec):
     sid = schema.emit(decls, L, [0])
     L.append('init 0 %d %d' % (sid, fl))
     L.append('init 1 %d %d' % (sid, fl))
+    L.append('note first')          # the declarations must serve a second cfg_init exactly as they served the first
+    L.append('dump 0')
+    L.append('print 0')
     L.append('note base')
     L.append('dump 1')
     L.append('print 1')
@@ -133,6 +153,11 @@ def script(spec):
         L.append('note other')
         L.append('dump 1')
         L.append('print 1')
+    # a plain section that is removed and then created again by a parse is a new instance: it gets the declared defaults
+    single = next((d for d in decls if d.typ == 'sec' and not d.is_multi and not (d.flags & core.F_NODEFAULT) and not (d.flags & F_KEYSTRVAL)), None)
+    if single is not None:
+        L += ['note recreate', 'dumpsec 1 %s' % hx(single.name), 'rmnsec 0 %s 0' % hx(single.name), 'parse_buf 0 %s' % hx('%s { }\n' % single.name),
+              'dumpsec 0 %s' % hx(single.name)]
     # sibling instances of multi sections inside context 0: touch instance 0 only, instance 1 must not move
     sib = first_multi_titled(decls)
     if sib is not None:
@@ -234,10 +259,15 @@ def judge(spec, events, death):
         v.notes['poison_cases'] = 1
         return v
     base = None
+    first = None
     last_step = None
     for g in G_:
-        if g[0] == 'base':
+        if g[0] == 'first':
+            first = snap(g)
+        elif g[0] == 'base':
             base = snap(g)
+            if first is not None and base != first:
+                v.bad('second-init-differs', 'two contexts created one after the other from the same declarations differ right after cfg_init (the first cfg_init changed the declarations)')
         elif g[0] == 'step':
             last_step = [e.get('op') for e in g[1:] if e.get('ev') == 'r'][:3]
         elif g[0] == 'other':
@@ -247,6 +277,16 @@ def judge(spec, events, death):
                 v.bad('contexts-share:%s' % what, 'operations %r on one context changed the %s of another context created from the same declarations' % (last_step, what))
                 base = s
             v.notes['invariance_checks'] = v.notes.get('invariance_checks', 0) + 1
+    for g in G_:
+        if g[0] == 'recreate':
+            d = [e for e in g[1:] if e.get('ev') == 'dumpsec']
+            r = [e for e in g[1:] if e.get('ev') == 'r']
+            if len(d) == 2 and d[0]['tree'] is not None and all(e['rc'] == 0 for e in r):
+                v.notes['recreate_checks'] = 1
+                a = schema.dump_values_only(d[0]['tree'])
+                b = schema.dump_values_only(d[1]['tree']) if d[1]['tree'] is not None else None
+                if a != b:
+                    v.bad('recreated-section-lacks-defaults', 'a plain section removed with cfg_rmnsec and created again by the parser does not have the declared defaults / sub-sections of a fresh instance')
     sib_base = None
     for g in G_:
         if g[0] == 'sib-base':
